@@ -32,20 +32,16 @@ Fixpoint insert_cf (f : cframe) (l : list cframe) : list cframe :=
 Fixpoint remove_id (i : Z) (l : list cframe) : list cframe :=
   match l with [] => [] | x :: r => if cf_id x =? i then r else x :: remove_id i r end.
 
-(* for crypto_frame in frames: if crypto_frame.offset == offset: consume it and REMOVE it from the list being iterated
-   (the iteration index then skips the element that slides into its place) *)
-Fixpoint drain (fuel : nat) (i : nat) (s : cstream) : cstream :=
-  match fuel with
-  | O => s
-  | S f =>
-      match nth_error (cs_frames s) i with
-      | None => s
-      | Some cf =>
-          if cf_offset cf =? cs_offset s then
-            drain f (S i) {| cs_offset := cs_offset s + cf_length cf; cs_frames := remove_id (cf_id cf) (cs_frames s);
-                             cs_buffer := cs_buffer s ++ cf_data cf |}
-          else drain f (S i) s
-      end
+(* for crypto_frame in list(frames): if crypto_frame.offset == offset: consume it and remove it from the buffer
+   (the loop runs over a copy of the sorted list, so every frame is looked at once, in offset order) *)
+Fixpoint drain (snapshot : list cframe) (s : cstream) : cstream :=
+  match snapshot with
+  | [] => s
+  | cf :: r =>
+      if cf_offset cf =? cs_offset s then
+        drain r {| cs_offset := cs_offset s + cf_length cf; cs_frames := remove_id (cf_id cf) (cs_frames s);
+                   cs_buffer := cs_buffer s ++ cf_data cf |}
+      else drain r s
   end.
 
 (* ---- extensions ---- *)
@@ -174,5 +170,5 @@ Definition update_session (q : qtls) (isserver : bool) (ptype : qptype) (cf : cf
   let n := slot ptype in
   let s := nth n (get_streams q isserver) cs0 in
   let frames := insert_cf cf (cs_frames s) in
-  let s1 := drain (S (length frames)) 0 {| cs_offset := cs_offset s; cs_frames := frames; cs_buffer := cs_buffer s |} in
+  let s1 := drain frames {| cs_offset := cs_offset s; cs_frames := frames; cs_buffer := cs_buffer s |} in
   handle_buffer_from 0 4 (set_streams q isserver (set_nth n s1 (get_streams q isserver))) isserver.
